@@ -50,6 +50,15 @@ type c15Target struct {
 	full  []c15Case
 }
 
+// c15Name: the first partition's name fills the 72-byte field completely (36 UTF-16 units, no terminator), which is
+// a legal on-disk state; the others are short and contain a surrogate pair
+func c15Name(i int) string {
+	if i == 0 {
+		return "p0-\U0001F4BE" + strings.Repeat("x", 31)
+	}
+	return fmt.Sprintf("p%d-\U0001F4BE", i)
+}
+
 func buildC15Bases() []c15Base {
 	var out []c15Base
 	mk := func(name string, lss int, sectors int64, nparts int) {
@@ -59,7 +68,7 @@ func buildC15Bases() []c15Base {
 		first, last := gptGeometry(size, lss)
 		for i := 0; i < nparts; i++ {
 			w := (last - first + 1) / uint64(nparts)
-			t.Partitions = append(t.Partitions, &gpt.Partition{Index: i + 1, Start: first + uint64(i)*w, End: first + uint64(i+1)*w - 1, Type: gpt.LinuxFilesystem, Name: fmt.Sprintf("p%d-\U0001F4BE", i), GUID: partGUID(i + 1), Attributes: uint64(i)})
+			t.Partitions = append(t.Partitions, &gpt.Partition{Index: i + 1, Start: first + uint64(i)*w, End: first + uint64(i+1)*w - 1, Type: gpt.LinuxFilesystem, Name: c15Name(i), GUID: partGUID(i + 1), Attributes: uint64(i)})
 		}
 		if err := t.Write(d, size); err != nil {
 			panic(err)
@@ -128,6 +137,12 @@ var lePatterns = func(w int, devSize int64) [][]byte {
 		}),
 		mk(func(b []byte) { b[w-1] = 0x80 }),
 	}
+	// sizes around one logical block (a length field that is larger than the block it lives in, but not absurd)
+	for _, v := range []int64{511, 512, 513, 4095, 4096, 4097} {
+		b := make([]byte, 8)
+		binary.LittleEndian.PutUint64(b, uint64(v))
+		ps = append(ps, b[:w])
+	}
 	if w >= 4 {
 		for _, v := range []int64{devSize, devSize + 1, devSize / 512, devSize/512 + 1} {
 			b := make([]byte, 8)
@@ -181,10 +196,16 @@ func newC15Target(quickTier bool) *c15Target {
 						} else if inArray {
 							fixes = []int{0, 2}
 						}
-						for _, v := range []byte{0x00, 0x01, 0x7F, 0x80, 0xFF, orig ^ 0x01, orig ^ 0x80} {
-							if v == orig {
+						vals := []byte{0x00, 0x01, 0x7F, 0x80, 0xFF}
+						for k := 0; k < 8; k++ {
+							vals = append(vals, orig^(1<<k)) // every single-bit flip
+						}
+						seenV := map[byte]bool{orig: true}
+						for _, v := range vals {
+							if seenV[v] {
 								continue
 							}
+							seenV[v] = true
 							for _, fx := range fixes {
 								cs = append(cs, c15Case{Base: bi, Patches: []bytePatch{{o, []byte{v}}}, Fix: fx, BreakPrimary: bp, Truncate: -1, Label: "byte"})
 							}
@@ -373,7 +394,7 @@ func C15(r *ev.Run) {
 	r.Set("cases_enumerated", int64(n))
 	r.Set("distinct_outcomes", st.outcomes)
 	r.Set("worker_deaths", int64(st.deaths))
-	r.Set("rule", "base images {GPT 512B 1 and 4 partitions, GPT 4096B, MBR 4 partitions, protective-MBR-only}; sites = every byte offset the clean reader and the backup-fallback reader consume (measured with a read-tracking device); per site single-byte values {00,01,7F,80,FF,b^01,b^80} and little-endian 2/4/8-byte patterns {0,all-ones,max-signed,sign-bit,device size(+1) in bytes and sectors}, each raw and with header/array CRC recomputed by stdlib hash/crc32; all pairs over {entry count, entry size, array LBA, my LBA, alternate LBA, first/last usable} x 14 boundary values with CRCs fixed; every truncation boundary; every case run in a worker process under RLIMIT_AS=2GiB with panic, read-budget and allocation (64 x device + 32 MiB) oracles. Cases are distinct by construction (site,pattern,fix); non-trivial = the reader got past signature and checksum validation (returned a table or failed later)")
+	r.Set("rule", "base images {GPT 512B 1 and 4 partitions, GPT 4096B, MBR 4 partitions, protective-MBR-only}; sites = every byte offset the clean reader and the backup-fallback reader consume (measured with a read-tracking device); per site single-byte values {00,01,7F,80,FF, every single-bit flip of b} and little-endian 2/4/8-byte patterns {0,all-ones,max-signed,sign-bit,511,512,513,4095,4096,4097,device size(+1) in bytes and sectors}, each raw and with header/array CRC recomputed by stdlib hash/crc32; all pairs over {entry count, entry size, array LBA, my LBA, alternate LBA, first/last usable} x 14 boundary values with CRCs fixed; every truncation boundary; every case run in a worker process under RLIMIT_AS=2GiB with panic, read-budget and allocation (64 x device + 32 MiB) oracles. Cases are distinct by construction (site,pattern,fix); non-trivial = the reader got past signature and checksum validation (returned a table or failed later)")
 	r.Set("exhaustive", st.done >= int64(n))
 	r.Assume("RLIMIT_AS of 2 GiB makes an out-of-proportion allocation fatal; the parent attributes a worker death to the case in flight and requires it to reproduce twice")
 }
